@@ -140,104 +140,103 @@ fn corrected(m: f64, ec: f64) -> f64 {
     m - (m - m * m) * ec
 }
 
-// @family prop=C16 name=c16_value_independence macro=c16_value_independence n=3 quick=1 thorough=1,2 tseeded=0 timeout=2400
-// @about public API only, slice = sample rate {0: 200 Hz (capacity 4, allowance 0), 1: 500 Hz (capacity 9, the newest 1 sample excluded, mean of the 8 oldest), 2: 1 kHz (capacity 18, newest 2 excluded)}, default resistor triple (20k, 820, 1M): controller A: optionally an EARLIER complete press at another position followed by out-of-range samples (symbolic choice), then an unbroken run of capacity + j (j in 0..=1, symbolic) in-range samples on a 2^-10 grid; controller B: fresh, the same run but with DIFFERENT values in the excluded newest samples: both report the press, value() lies in [0,1] and is bit-identical in A and B (independent of the earlier press and of the finger-lift allowance); after the finger lifts, and while a new run is still shorter than the capture, value() is retained bit for bit
-macro_rules! c16_value_independence {
+// @family prop=C16 name=c16_value_step macro=c16_value_step n=3 quick=0,1 thorough=all tseeded=0 timeout=1800
+// @about the poll that reports / refreshes the value, slice = sample rate {500 Hz: capacity 9, newest 1 sample excluded; 1 kHz: 18 / 2; 2 kHz: 35 / 4}, default resistor triple. State built without branching: the capture buffer receives 3 symbolic LEFT-OVER samples of an earlier press and then the capacity-1 samples of the current unbroken run (HistoryBuffer::write, in order), run counters as c15_poll_step proves them for a run of that length, press flag symbolic (first report or refresh); then one real poll() with the sample that completes the capture. Controller B differs from A in the left-over samples, in the newest samples that fall in the finger-lift allowance and in the completing sample: both report the press and value() is bit-identical (depends on no sample of an earlier press and on none of the excluded newest samples), lies in [0,1]; run samples on a 2^-10 grid in the in-range interval
+macro_rules! c16_value_step {
     ($name:ident, $k:expr) => {
         #[kani::proof]
-        #[kani::unwind(24)]
+        #[kani::unwind(40)]
         fn $name() {
-            const FS: u32 = [200, 500, 1_000][$k];
+            const FS: u32 = [500, 1_000, 2_000][$k];
             const CAP: usize = sample_rate_to_capacity(FS);
             let mut a: RibbonController<CAP> = RibbonController::new(FS as f32, 20.0e3, 820.0, 1.0e6);
             let mut b: RibbonController<CAP> = RibbonController::new(FS as f32, 20.0e3, 820.0, 1.0e6);
             let lift = a.num_to_discard_at_end;
-            let earlier: bool = kani::any();
-            if earlier {
-                let pos: u16 = kani::any();
-                kani::assume(pos < 900);
-                let mut i = 0;
-                while i < CAP + 1 {
-                    a.poll(pos as f32 / 1024.0);
-                    i += 1;
-                }
-                a.poll(1.0);
-                a.poll(1.0);
-                let _ = a.finger_just_pressed();
-                let _ = a.finger_just_released();
-            }
-            let j: usize = kani::any();
-            kani::assume(j <= 1);
-            let raw: [u16; CAP + 1] = kani::any();
-            let other: [u16; 2] = kani::any();
+            let ignore = a.num_to_ignore_up_front;
+            let junk_a: [u16; 3] = kani::any();
+            let junk_b: [u16; 3] = kani::any();
+            let run: [u16; CAP] = kani::any();
+            let newest_b: [u16; CAP] = kani::any();
             let mut i = 0;
-            while i < CAP + 1 {
-                kani::assume(raw[i] < 960); // in range: 960/1024 < boundary (0.9606)
+            while i < 3 {
+                a.buff.write((junk_a[i] & 0x3ff) as f32 / 1024.0);
+                b.buff.write((junk_b[i] & 0x3ff) as f32 / 1024.0);
                 i += 1;
             }
-            kani::assume(other[0] < 960 && other[1] < 960);
-            let n = CAP + j;
             let mut i = 0;
-            while i < CAP + 1 {
-                if i < n {
-                    let s = raw[i] as f32 / 1024.0;
-                    a.poll(s);
-                    // b: same run, but the newest `lift` samples (the finger-lift allowance) differ
-                    let sb = if i + lift >= n { other[(n - 1 - i) % 2] as f32 / 1024.0 } else { s };
-                    b.poll(sb);
-                }
+            while i < CAP - 1 {
+                kani::assume(run[i] < 960 && newest_b[i] < 960); // in range: 960/1024 < boundary (0.9606)
+                let s = run[i] as f32 / 1024.0;
+                a.buff.write(s);
+                // B: the samples that will fall into the finger-lift allowance differ
+                // (the completing sample is the newest; the lift-1 before it are the last writes here)
+                let in_allowance = i + lift >= CAP;
+                b.buff.write(if in_allowance { newest_b[i] as f32 / 1024.0 } else { s });
                 i += 1;
             }
+            kani::assume(run[CAP - 1] < 960 && newest_b[CAP - 1] < 960);
+            let pressing: bool = kani::any();
+            a.num_samples_received = ignore;
+            a.num_samples_written = CAP - 1;
+            a.finger_is_pressing = false;
+            b.num_samples_received = ignore;
+            b.num_samples_written = CAP - 1;
+            b.finger_is_pressing = false;
+            if pressing {
+                // a press that is already being reported: counters saturated, value refreshed on every poll
+                a.num_samples_written = CAP;
+                a.finger_is_pressing = true;
+                b.num_samples_written = CAP;
+                b.finger_is_pressing = true;
+            }
+            a.poll(run[CAP - 1] as f32 / 1024.0);
+            b.poll(if lift >= 1 { newest_b[CAP - 1] } else { run[CAP - 1] } as f32 / 1024.0);
             vassert!(a.finger_is_pressing() && b.finger_is_pressing(), "C16/press-reported-after-full-capture");
             let v = a.value();
-            vassert!(v >= 0.0 && v <= 1.0, "C16/value/in-[0,1]");
             vassert!(v.to_bits() == b.value().to_bits(), "C16/value/independent-of-earlier-press-and-of-excluded-newest-samples");
-            let before = a.value();
-            a.poll(1.0);
-            vassert!(!a.finger_is_pressing() && a.value().to_bits() == before.to_bits(), "C16/value/retained-after-lift");
-            a.poll(raw[0] as f32 / 1024.0);
-            vassert!(a.value().to_bits() == before.to_bits(), "C16/value/retained-until-next-press-is-reported");
-            vcover!(earlier && j == 1, "witness: earlier press, window slid by one");
-            vcover!(!earlier && j == 0, "witness: first press, exactly the capture length");
+            vassert!(v >= 0.0 && v <= 1.0, "C16/value/in-[0,1]");
+            vcover!(junk_a[0] != junk_b[0], "witness: left-over samples differ");
+            vcover!(lift >= 1 && newest_b[CAP - 1] != run[CAP - 1], "witness: excluded newest sample differs");
+            vcover!(pressing, "witness: value refreshed during a press");
         }
     };
 }
 
-// @harness prop=C16 tier=quick timeout=2400
-// @about public API only, 200 Hz (capacity 4: the mean of 4 samples), default resistor triple: two fresh controllers fed an unbroken run of 4 in-range samples on a 2^-10 grid, identical except that ONE sample (symbolic index) is larger in the second run: value() of the first lies between the corrected minimum and maximum of its samples (+-4 ulp; correction m - (m - m^2)*c evaluated in f64) and the second value is not lower (2 ulp)
+// @harness prop=C16 tier=quick timeout=1800
+// @about public API only, 200 Hz (capacity 4: the mean of 4 samples), default resistor triple: two fresh controllers fed an unbroken run of 4 in-range samples on a 2^-4 grid (0, 1/16, .. 14/16), identical except that ONE sample (symbolic index) is larger in the second run: value() of the first lies between the values the REAL controller reports for the constant runs min,min,min,min and max,max,max,max (+-4 ulp), and the second value is not lower (2 ulp)
 #[kani::proof]
 #[kani::unwind(7)]
 fn c16_value_between_min_max_and_monotone() {
     const CAP: usize = sample_rate_to_capacity(200);
     let mut a: RibbonController<CAP> = RibbonController::new(200.0, 20.0e3, 820.0, 1.0e6);
     let mut b: RibbonController<CAP> = RibbonController::new(200.0, 20.0e3, 820.0, 1.0e6);
-    let bound = a.finger_press_high_boundary;
-    let ec = a.error_const as f64;
-    let raw: [u16; CAP] = kani::any();
+    let mut cmin: RibbonController<CAP> = RibbonController::new(200.0, 20.0e3, 820.0, 1.0e6);
+    let mut cmax: RibbonController<CAP> = RibbonController::new(200.0, 20.0e3, 820.0, 1.0e6);
+    let raw: [u8; CAP] = kani::any();
     let idx: usize = kani::any();
-    let up: u16 = kani::any();
-    kani::assume(idx < CAP && up < 960);
-    let mut lo = 1.0_f64;
-    let mut hi = 0.0_f64;
+    let up: u8 = kani::any();
+    kani::assume(idx < CAP && up < 15);
+    let mut lo = 15u8;
+    let mut hi = 0u8;
     let mut i = 0;
     while i < CAP {
-        kani::assume(raw[i] < 960);
-        let s = raw[i] as f64 / 1024.0;
-        if s < lo { lo = s; }
-        if s > hi { hi = s; }
+        kani::assume(raw[i] < 15);
+        if raw[i] < lo { lo = raw[i]; }
+        if raw[i] > hi { hi = raw[i]; }
         i += 1;
     }
     kani::assume(up >= raw[idx]);
     let mut i = 0;
     while i < CAP {
-        a.poll(raw[i] as f32 / 1024.0);
-        b.poll(if i == idx { up } else { raw[i] } as f32 / 1024.0);
+        a.poll(raw[i] as f32 / 16.0);
+        b.poll(if i == idx { up } else { raw[i] } as f32 / 16.0);
+        cmin.poll(lo as f32 / 16.0);
+        cmax.poll(hi as f32 / 16.0);
         i += 1;
     }
     vassert!(a.finger_is_pressing() && b.finger_is_pressing(), "C16/press-reported-after-full-capture");
     let tol = 4.0 * 1.1920929e-7;
-    let vv = a.value() as f64 * bound as f64;
-    vassert!(vv >= corrected(lo, ec) - tol && vv <= corrected(hi, ec) + tol, "C16/value/between-corrected-min-and-max-of-contributing-samples");
+    vassert!(a.value() >= cmin.value() - tol && a.value() <= cmax.value() + tol, "C16/value/between-corrected-min-and-max-of-contributing-samples");
     vassert!(b.value() >= a.value() - 2.0 * 1.1920929e-7, "C16/value/does-not-decrease-when-a-contributing-sample-increases");
     vcover!(up > raw[idx] && b.value() > a.value(), "witness: value rose");
     vcover!(lo < hi, "witness: samples differ");
